@@ -9,6 +9,7 @@ import (
 	"sync"
 
 	"verif/harness/core"
+	"verif/harness/drive/rm"
 )
 
 var Driver = core.Driver{ID: "C02", Level: "model_checking", Run: run, Replay: replay, SelfTest: selfTest}
@@ -409,6 +410,13 @@ func run(ctx *core.Ctx) error {
 	}
 	ctx.Ev.Set("model_transitions_of_program_graphs", totalEdges)
 	ctx.Ev.Set("model_transitions_replayed_on_real_code", covEdges)
+	if ctx.Thorough() {
+		// extension beyond the listed properties: the ResourceManager protocol
+		// (spec/file/ResourceManager.tla); deviations are NOTE lines, not verdicts
+		if err := rm.Run(ctx); err != nil {
+			return err
+		}
+	}
 	return nil
 }
 
